@@ -145,6 +145,10 @@ def export_shapes():
            ("forall", [("pb", PB_)], ("exists", [("qb", PB_)], ("Equals", S("pb", PB_), S("qb", PB_)))),
            ("Not", ("Equals", ("Array", ("type", SC), L(0, INT)), ("Array", ("type", SC), L(1, INT)))),
            ("And", a, ("forall", [("zc", SC)], ("Equals", ("Select", ("Array", ("type", SC), x), S("zc", SC)), x)))]
+    # vacuous binders: the sort of the bound variable occurs nowhere else
+    VS, VT = ("CUSTOM", "Vs"), ("CUSTOM", "Vt")
+    sh += [("forall", [("vs", VS)], a), ("Or", b, ("exists", [("va", ("ARRAY", INT, VT))], ("LT", x, y))),
+           ("forall", [("vp", ("CUSTOM", "Vp", (INT, ("CUSTOM", "Vq"))))], ("exists", [("vb", ("BV", 7))], a))]
     # binders whose variable order is not the order in which the variables were created
     sh += [("And", ("LT", x, y), ("forall", [("y", INT), ("x", INT)], ("LT", ("Plus", x, y), L(3, INT)))),
            ("Or", ("LT", x, ("Plus", y, S("z", INT))), ("exists", [("z", INT), ("x", INT), ("y", INT)], ("LT", ("Plus", x, y), S("z", INT)))),
@@ -521,6 +525,8 @@ def import_corpus():
     add("push-pop-n", D + "(assert a)(push 2)(assert b)(pop 2)(push 1)(assert c)")
     add("push-declare", D + "(push 1)(declare-fun t () Int)(assert (< t x))(pop 1)(assert a)")
     add("push-pop-zero", D + "(assert a)(push 0)(assert b)(pop 0)(assert c)")
+    add("pop-zero-inside-level", D + "(assert a)(push 1)(assert b)(pop 0)(assert c)(check-sat)")
+    add("pop-zero-inside-two-levels", D + "(push 2)(assert a)(pop 0)(assert b)(pop 1)(assert c)(push 0)(assert (< x y))")
     add("push-pop-default", D + "(assert a)(push)(assert b)(pop)(assert c)")
     add("push-3-pop-3", D + "(assert a)(push 3)(assert b)(pop 2)(assert c)(pop 1)(assert (< x y))")
     add("two-assertions", D + "(assert a)(assert (or b c))(check-sat)")
